@@ -29,6 +29,12 @@ def define_array_folds():
   (P_val m buf len (ps_pos s) base (store (ps_H s) c (store (select (ps_H s) c) "_index" (VInt j))) (store (ps_D s) c (store (select (ps_D s) c) "_index" true)) c)))""", deps=['afold', 'P_val'])
 
 
+def _discard(eng, pre, st):
+    """the discard flag of the repeater (LazyArray has none: it always collects)"""
+    f = pre.self.fields.get('discard')
+    return t.FALSE if f is None else eng.truth(f, st)
+
+
 def _s0(pre):
     o = S_(pre)
     return mkPS(t.TRUE, t.FALSE, o.pos, pre.st.ghost['H'], pre.st.ghost['D'])
@@ -60,7 +66,7 @@ def _parse_inv(L):
     o = L.obj('stream')
     F = afold(pre, L.k)
     obj = L.obj('obj')
-    discard = L.eng.truth(pre.self.fields['discard'], L.st)
+    discard = _discard(L.eng, pre, L.st)
     hints = [_unfold(pre, L.k)] if L.k.op != 'int' else []
     out = [('state-after-k-elements-is-the-specification-fold', t.and_(ps('ps_ok', F), t.eq(o.pos, ps('ps_pos', F)), t.eq(L.st.ghost['H'], ps('ps_H', F)), t.eq(L.st.ghost['D'], ps('ps_D', F))), None, hints),
            ('buffer-unchanged', t.and_(t.eq(o.buf, o0.buf), t.eq(o.len, o0.len)))]
@@ -83,7 +89,7 @@ def _array_parse_ok(pre, post):
            ('buffer-unchanged', buffer_same(pre, post), ('C17', 'C08'))]
     if r is not None and r.items is None:
         j = t.var('aj!', t.INT)
-        discard = post.eng.truth(pre.self.fields['discard'], pre.st)
+        discard = _discard(post.eng, pre, pre.st)
         out.append(('returns-exactly-count-element-values-in-order', t.and_(t.eq(r.len, t.ite(discard, t.ZERO, n)),
                     t.forall([j], t.implies(t.and_(t.le(t.ZERO, j), t.lt(j, r.len)), t.eq(t.T(t.VAL, 'select', (r.arr, j)), aval(pre, j))), pats=[[t.T(t.VAL, 'select', (r.arr, j))]])), T))
     return out
@@ -180,7 +186,7 @@ def _build_inv(L):
     o = L.obj('stream')
     F = abfold(pre, L.k)
     rl = L.obj('retlist')
-    discard = L.eng.truth(pre.self.fields['discard'], L.st)
+    discard = _discard(L.eng, pre, L.st)
     hints = [_bunfold(pre, L.k)] if L.k.op != 'int' else []
     out = [('state-after-k-elements-is-the-specification-fold', t.and_(bs('bs_ok', F), t.eq(o.buf, bs('bs_buf', F)), t.eq(o.len, bs('bs_len', F)), t.eq(o.pos, bs('bs_pos', F)),
                                                                     t.eq(L.st.ghost['H'], bs('bs_H', F)), t.eq(L.st.ghost['D'], bs('bs_D', F))), None, hints)]
@@ -202,7 +208,7 @@ def _array_build_ok(pre, post):
            ('scope-as-the-last-element-left-it', t.and_(t.eq(post.st.ghost['H'], bs('bs_H', F)), t.eq(post.st.ghost['D'], bs('bs_D', F))), ('C07',))]
     if r is not None and r.items is None:
         j = t.var('abj!', t.INT)
-        discard = post.eng.truth(pre.self.fields['discard'], pre.st)
+        discard = _discard(post.eng, pre, pre.st)
         out.append(('returns-what-each-element-build-returned-in-order', t.and_(t.eq(r.len, t.ite(discard, t.ZERO, n)),
                     t.forall([j], t.implies(t.and_(t.le(t.ZERO, j), t.lt(j, r.len)), t.eq(t.T(t.VAL, 'select', (r.arr, j)), abret(pre, j))), pats=[[t.T(t.VAL, 'select', (r.arr, j))]])), T))
     return out
@@ -264,7 +270,7 @@ def _gr_build_ok(pre, post):
            ('scope-as-the-last-element-left-it', t.and_(t.eq(post.st.ghost['H'], bs('bs_H', F)), t.eq(post.st.ghost['D'], bs('bs_D', F))), ('C07',))]
     if r.items is None:
         j = t.var('abj!', t.INT)
-        discard = post.eng.truth(pre.self.fields['discard'], pre.st)
+        discard = _discard(post.eng, pre, pre.st)
         out.append(('returns-what-each-element-build-returned-in-order', t.and_(t.eq(r.len, t.ite(discard, t.ZERO, n)),
                     t.forall([j], t.implies(t.and_(t.le(t.ZERO, j), t.lt(j, r.len)), t.eq(t.T(t.VAL, 'select', (r.arr, j)), abret(pre, j))), pats=[[t.T(t.VAL, 'select', (r.arr, j))]])), T + ('C01',)))
     return out
@@ -276,3 +282,17 @@ def register_greedyrange_build(src):
         Case('fails', 'raise', lambda pre: t.TRUE, ensures=generic_raise, modifies=['stream']),
     ], loops={'for (i, e) in enumerate(obj)': LoopSpec(_build_inv, tags=T + ('C01',))}, tags=T + ('C01',), sequential_build=False,
         requires=lambda pre: [('the-supplied-value-is-a-list-like-sequence', t.and_(t.app('dyn_sized', t.BOOL, pre['obj'].t), t.app('(_ is VOpq)', t.BOOL, pre['obj'].t)))])
+
+
+# ================================================================================================ LazyArray._build / _sizeof (copies of Array's)
+def register_lazyarray_build(src):
+    fcontract('LazyArray', '_build', [
+        Case('ok', 'return', lambda pre: t.TRUE, ensures=_array_build_ok, rkind=rk_list, modifies=['stream']),
+        Case('fails', 'raise', lambda pre: t.TRUE, ensures=_array_build_bad, modifies=['stream']),
+    ], loops={'for (i, e) in enumerate(obj)': LoopSpec(_build_inv, tags=T + ('C16',))}, tags=T + ('C16',), sequential_build=False,
+        requires=lambda pre: [('the-supplied-value-is-a-list-like-sequence', t.and_(t.app('dyn_sized', t.BOOL, pre['obj'].t), t.app('(_ is VOpq)', t.BOOL, pre['obj'].t)))])
+    fcontract('LazyArray', '_sizeof', [
+        Case('ok', 'return', lambda pre: Sub(pre, 'subcon', kind='sizeof').ok,
+             ensures=lambda pre, post: [('size-is-count-times-the-element-size', size_is(post, t.mul(_param_int(pre, 'count'), Sub(pre, 'subcon', kind='sizeof').val)), ('C05', 'C16'))], rkind=rk_dyn),
+        Case('no-size', 'raise', lambda pre: t.not_(Sub(pre, 'subcon', kind='sizeof').ok)),
+    ], tags=('C05', 'C16'))
